@@ -664,7 +664,11 @@ def _photon_conversion(run, prog):
             except Exception:
                 fac = None
     want = L('h') * L('c') * C(10 ** 9)
-    if fac is None:
+    if fac is None and not any(isinstance(n, (ast.Assign, ast.AnnAssign)) and 'conversion_factor' in norm(n.targets[0] if isinstance(n, ast.Assign) else n.target)
+                               for n in ast.walk(c)):
+        run.fail('C07-R10', K + 'factor', rel, c.lineno, 'PhotonToJ defines no conversion_factor: to / inv read the attribute of the base class '
+                 '(None) instead of h c in J nm')
+    elif fac is None:
         run.undecided('C07-R10', 'PhotonToJ.conversion_factor', 'not a recognised arithmetic expression')
     elif fac.eq(want):
         run.ok('C07-R10', 'PhotonToJ.conversion_factor', 'Planck * speed_of_light * 1e9')
